@@ -28,6 +28,10 @@ CLAIMED = {
          "Structural conditions that, together with sync.Mutex's contract, give exclusion/re-entrancy/release: every Lock of the module released on every exit; mutex and owner tables only under the table lock with one key; "
          "owner recorded after Lock and cleared before Unlock; the Lock bypassed exactly for (present, owner = this thread) — all 4 abstract cases enumerated; free-owner sentinel outside the thread-id range. "
          "Does not execute schedules; thread ids chosen by an embedding host are outside the check.", "3/C12"),
+ "C02": ("dominance / must-pass-through ordering rules on SSA CFGs, per-return classification, guarded-by and lock-order analysis (lockflow) over the engine",
+         "Decides the orderings and lock discipline on which the engine's completion-counting argument rests (child counted before NewChildMonitor returns; activate before queueing; observer before AddEvent; Wait on every path that returns a monitor; "
+         "Finish exactly on the error-free path after ProcessEvent; errors attached before Finish; notification posted under the zero test taken after the decrement, inside the same critical section, and posted outside the lock; acyclic lock order). "
+         "These hold for every interleaving because they are properties of every path; the check does not enumerate schedules and does not decide exactly-once notification for monitors reused by user code.", "3/C02"),
 }
 
 NOT_YET = "check not built yet in this session (see DESIGN.md section 3 for the planned static rule)"
